@@ -124,6 +124,52 @@ func (c03) Gen(tier string, seed int64, emit func([]Ev)) {
 	}
 }
 
+// GenRows (B2): rows are the reachable logical states of the model (Gen_C03), each as the serialised field.
+// Every operation of the model is applied to every state - one implementation test per transition of the
+// model's graph; the argument values are the harness's (the trace validation judges whatever was passed).
+func (c03) GenRows(rows []Ev, tier string, seed int64, emit func([]Ev)) {
+	r := rand.New(rand.NewSource(seed))
+	for i, row := range rows {
+		if tier != "thorough" && i%32 != int(seed)%32 {
+			continue // quick: every 32nd state (which ones depends on the seed)
+		}
+		af := GB(row["af"])
+		var p packet.Packet
+		r.Read(p[:])
+		p[0] = 0x47
+		p[3] = p[3]&0x0f | 0x20
+		if len(af)-1 < 183 {
+			p[3] |= 0x10
+		}
+		copy(p[4:], af)
+		one := func(op string, arg interface{}, fit int) {
+			e := Ev{"op": op, "arg": arg, "start": B(p[:])}
+			if fit > -9 {
+				e["fit"] = fit
+			}
+			emit([]Ev{e})
+		}
+		for _, op := range c03BoolOps {
+			one(op, true, -9)
+			one(op, false, -9)
+		}
+		for _, op := range []string{"SetPCR", "SetOPCR"} {
+			one(op, W64(uint64(r.Int63n(int64(pcrLimit)))), -9)
+			one(op, W64([]uint64{0, pcrLimit - 1, 299, 300, (1 << 32) * 300}[r.Intn(5)]), -9)
+		}
+		one("SetSpliceCountdown", 0, -9)
+		one("SetSpliceCountdown", []int{1, 127, 128, 255}[r.Intn(4)], -9)
+		for _, op := range []string{"SetTransportPrivateData", "SetAdaptationFieldExtension"} {
+			for _, n := range []int{0, 1, 2, 3} {
+				one(op, B(rndBytes(r, n)), -9)
+			}
+			one(op, B(nil), -1) // one short of the room, exactly fitting, one too many
+			one(op, B(nil), 0)
+			one(op, B(nil), 1)
+		}
+	}
+}
+
 // c03Room: the data length that would exactly fill the adaptation field if given to the private data
 // (tpd) or extension field now; -1 when that field is absent or the field is malformed. Generation aid only.
 func c03Room(p *packet.Packet, tpd bool) int {
